@@ -1302,7 +1302,9 @@ theorem C12_layerB_spot_after_shutdown {b b' : BState} {i : Nat} {r : Req} {o o'
   have h1 : r ≠ .weight := by rcases hwrite with ⟨_, _, _, _, rfl⟩ | ⟨_, rfl⟩ | ⟨_, _, _, _, _, rfl⟩ <;> simp
   have h2 : r ≠ .shutdown := by rcases hwrite with ⟨_, _, _, _, rfl⟩ | ⟨_, rfl⟩ | ⟨_, _, _, _, _, rfl⟩ <;> simp
   have h3 : refusal r = .err := by rcases hwrite with ⟨_, _, _, _, rfl⟩ | ⟨_, rfl⟩ | ⟨_, _, _, _, _, rfl⟩ <;> rfl
-  have := C13_layerB_refuses o hsh hpc h1 h2
+  have h4 : ∀ ks iter, r ≠ .mget ks iter := by
+    rcases hwrite with ⟨_, _, _, _, rfl⟩ | ⟨_, rfl⟩ | ⟨_, _, _, _, _, rfl⟩ <;> simp
+  have := C13_layerB_refuses o hsh hpc h1 h2 h4
   rw [h3] at this
   have hs' : clientAct b i o = .ok (b', o') := hs
   rw [this] at hs'
